@@ -575,15 +575,10 @@ Qed.
 Section Sim.
 Variable o : opts.
 Variable d : bytes.
-Variable tail : bytes.       (* whatever follows [cmd ++ d ++ "\n"] in the file *)
+Variable fol : bytes.        (* the look-ahead of the walker: what is written after a command *)
+Variable tail : bytes.       (* whatever follows [cmd ++ fol] in the file *)
 Variable T : Z.              (* [total] at the first byte of the command *)
 Variable SRC : bytes.
-Variable nested : scanner -> res (scanner * option Stmt).   (* never called on closed commands *)
-Hypothesis Hgo : GoCommand o = false.
-Hypothesis Hdok : delim_ok d = true.
-
-Notation fol := (d ++ [10%N]).
-
 (** the scanner stands after [pre], before [l ++ tail] *)
 Definition At (s : scanner) (pre l : bytes) : Prop :=
   input s = pre ++ l ++ tail /\ pos s = zlen pre /\ total s = T + zlen pre /\
@@ -612,12 +607,32 @@ Proof.
   intros (I & _) Heq ->. rewrite I, app_assoc, Heq, <- app_assoc. apply slice_to_app. reflexivity.
 Qed.
 
+Variable nested : scanner -> res (scanner * option Stmt).   (* never called on closed commands *)
+Hypothesis Hgo : GoCommand o = false.
+(** what the simulation needs of the look-ahead ([d ++ "\n"] in this file, ["\n" ++ d ++ "\n"]
+    in ClosedNLProofs.v): it ends with an ASCII byte and a newline, is at least as long as the
+    delimiter, and contains [;] when that is the delimiter *)
+Hypothesis Hfol_split : exists a x, fol = a ++ [x; 10%N] /\ (x < 128)%N.
+Hypothesis Hfol_len : (length d <= length fol)%nat.
+Hypothesis Hfol_59 : d = [59%N] -> In 59%N fol.
+
 Lemma In_nl_fol rest : In 10%N (rest ++ fol).
-Proof. apply in_or_app. right. apply in_or_app. right. left. reflexivity. Qed.
+Proof.
+  destruct Hfol_split as (a & x & -> & _).
+  apply in_or_app. right. apply in_or_app. right. right. left. reflexivity.
+Qed.
+Lemma fol_len1 : 1 <= zlen fol.
+Proof. destruct Hfol_split as (a & x & -> & _). rewrite zlen_app. pose proof (zlen_nonneg a). unfold zlen at 2. simpl. lia. Qed.
+
+Lemma fol_app_ne (x : bytes) : x ++ fol <> [].
+Proof.
+  pose proof fol_len1 as Hf1. intros Hx. apply app_eq_nil in Hx as [_ Hx].
+  rewrite Hx in Hf1. unfold zlen in Hf1. simpl in Hf1. lia.
+Qed.
 
 Lemma decode_tail rest t : decode_rune ((rest ++ fol) ++ t) = decode_rune (rest ++ fol).
 Proof.
-  destruct (follow_split d Hdok) as (a & x & -> & Hx).
+  destruct Hfol_split as (a & x & -> & Hx).
   rewrite app_assoc, <- app_assoc. simpl app. apply decode_rune_tail; lia.
 Qed.
 
@@ -629,9 +644,8 @@ Proof.
   rewrite (At_slice_from s pre (rest ++ fol) pre (rest ++ fol) (pos s) HA eq_refl)
     by (destruct HA as (_ & P & _); exact P).
   destruct HA as (I & P & _). rewrite I, P, !zlen_app.
-  pose proof (zlen_nonneg rest); pose proof (zlen_nonneg d); pose proof (zlen_nonneg tail).
-  change (zlen [10%N]) with 1.
-  replace (zlen pre + (zlen rest + (zlen d + 1) + zlen tail) <=? zlen pre) with false by lia.
+  pose proof (zlen_nonneg rest); pose proof fol_len1; pose proof (zlen_nonneg tail).
+  replace (zlen pre + (zlen rest + zlen fol + zlen tail) <=? zlen pre) with false by lia.
   cbn [bind]. rewrite decode_tail, D. reflexivity.
 Qed.
 
@@ -655,7 +669,7 @@ Proof.
   - apply At_move with (pre := pre) (l := rest ++ fol); [apply At_width; exact HA| |rewrite zlen_app; lia].
     rewrite Hr, <- !app_assoc. reflexivity.
   - intros Hr128.
-    assert (rest ++ fol <> []) as Hne by (destruct rest; [destruct d; discriminate|discriminate]).
+    pose proof (fol_app_ne rest) as Hne.
     destruct (decode_rune_spec _ _ _ D Hne) as (_ & Hascii & _).
     destruct (Hascii Hr128) as [-> [t Ht]].
     change (Z.to_nat 1) with 1%nat in *.
@@ -1002,7 +1016,7 @@ Proof.
 Qed.
 
 Lemma In_59_fol x : d = [59%N] -> In 59%N (x ++ fol).
-Proof. intros ->. apply in_or_app. right. left. reflexivity. Qed.
+Proof. intros H. apply in_or_app. right. exact (Hfol_59 H). Qed.
 
 Lemma ck_begins_at F s pre seg rest1 start prev depth opos k :
   Mid s pre seg rest1 -> PV start prev pre ->
@@ -1148,54 +1162,29 @@ Qed.
 Lemma conclude_eq (P : bytes -> Prop) (a b c x y : bytes) : a ++ b = x ++ y -> P (a ++ b ++ c) -> P (x ++ y ++ c).
 Proof. intros E. rewrite !app_assoc, E. auto. Qed.
 
-(** the delimiter after the command: [break Scan] *)
-Lemma final_step F s pre opos : At s pre ([] ++ fol) -> pre <> [] ->
-  exists s1, At s1 (pre ++ d) [10%N] /\ stmt_iter o nested F s 0 opos = Ok (Break s1 (pre ++ d)).
-Proof.
-  intros HA Hne.
-  destruct (delim_ok_inv d Hdok) as [Hasc (d0 & d' & Hd & H40 & H41 & Hq)].
-  assert (d0 < 128)%N as Hd0 by (apply Hasc; rewrite Hd; left; reflexivity).
-  assert (decode_rune ([] ++ fol) = (d0, 1)) as D.
-  { rewrite Hd. cbn [app]. unfold decode_rune. replace (d0 <? 128)%N with true by lia. reflexivity. }
-  rewrite stmt_iter_eq, (next_at s pre [] d0 1 HA D). cbn [bind].
-  set (s1 := addPos (set_width s 1) 1).
-  destruct HA as (I & P & Tt & Dl & Et & Sr).
-  assert (pos s1 = zlen pre + 1) as P1 by (unfold s1; simpl; lia).
-  assert (1 <= zlen pre) as Hp1 by (destruct pre; [congruence|rewrite zlen_cons; pose proof (zlen_nonneg pre); lia]).
-  unfold iter_some.
-  replace (N.eqb d0 40) with false by lia. replace (N.eqb d0 41) with false by lia.
-  change (N.eqb d0 39 || N.eqb d0 34 || N.eqb d0 96) with (is_quote d0). rewrite Hq.
-  unfold iter_rest.
-  rewrite ck_delimcmd_skip by lia.
-  rewrite ck_go_skip by exact Hgo.
-  rewrite (ck_delim_hit s1 _ (fol ++ tail)).
-  - set (s2 := addPos s1 (zlen (delim s1) - width s1)).
-    assert (input s2 = (pre ++ d) ++ [10%N] ++ tail) as I2.
-    { unfold s2, s1. simpl. rewrite I. cbn [app]. rewrite <- !app_assoc. reflexivity. }
-    assert (pos s2 = zlen (pre ++ d)) as P2.
-    { unfold s2, s1. simpl. rewrite P, Dl, zlen_app. lia. }
-    rewrite I2, (slice_to_app _ _ _ P2). cbn [bind]. exists s2. split; [|reflexivity].
-    unfold At. splits; auto.
-    unfold s2, s1. simpl. rewrite Tt, Dl, zlen_app. lia.
-  - unfold s1. simpl. rewrite I. cbn [app]. apply slice_from_app. lia.
-  - unfold s1. simpl. rewrite Dl. apply has_prefix_app. exists ([10%N] ++ tail). rewrite <- !app_assoc. reflexivity.
-Qed.
+(** what happens once the command is consumed (the walker stops there): the scanner breaks
+    after the delimiter; [fd] = the bytes of the look-ahead up to there, [KF] = fuel needed *)
+Variable fd : bytes.
+Variable KF : nat.
+Hypothesis Hfin : forall F s pre opos, At s pre fol -> pre <> [] -> (KF <= F)%nat ->
+  exists s1, At s1 (pre ++ fd) [10%N] /\
+    stmt_loop o nested F s 0 opos = (do es <- emit o s1 (pre ++ fd); Ok (snd es, Some (fst es))).
 
 Lemma cw_sim : forall f start prev depth n l, cw o d f start prev depth n l = true ->
   forall rest pre s opos F, l = rest ++ fol -> n = length rest -> At s pre l -> PV start prev pre ->
-    pre ++ rest <> [] -> (n + 1 <= F)%nat ->
-  exists s1, At s1 (pre ++ rest ++ d) [10%N] /\
+    pre ++ rest <> [] -> (n + KF <= F)%nat ->
+  exists s1, At s1 (pre ++ rest ++ fd) [10%N] /\
     stmt_loop o nested F s (Z.of_nat depth) opos =
-    (do es <- emit o s1 (pre ++ rest ++ d); Ok (snd es, Some (fst es))).
+    (do es <- emit o s1 (pre ++ rest ++ fd); Ok (snd es, Some (fst es))).
 Proof.
   induction f as [|f IH]; intros start prev depth n l H rest pre s opos F Hl Hn HA HP Hne HF; [discriminate|].
-  rewrite cw_S in H. destruct F as [|F]; [slia|]. rewrite stmt_loop_S.
+  rewrite cw_S in H.
   destruct n as [|n'].
   - (* the delimiter *)
     destruct rest; [|discriminate]. apply Nat.eqb_eq in H. subst depth l. rewrite app_nil_r in Hne.
-    destruct (final_step F s pre opos HA Hne) as (s1 & HA1 & Hit).
-    change (Z.of_nat 0) with 0. rewrite Hit. cbn [bind]. exists s1. split; [exact HA1|reflexivity].
-  - destruct (decode_rune l) as [r wz] eqn:D. cbv beta iota zeta in H.
+    cbn [app] in *. change (Z.of_nat 0) with 0. apply Hfin; auto.
+  - destruct F as [|F]; [slia|]. rewrite stmt_loop_S.
+    destruct (decode_rune l) as [r wz] eqn:D. cbv beta iota zeta in H.
     destruct ((Z.to_nat wz =? 0)%nat || (S n' <? Z.to_nat wz)%nat) eqn:Echk; [discriminate|].
     subst l. rewrite Hn in Echk.
     destruct (step_at s pre rest r wz HA D Echk)
@@ -1203,7 +1192,7 @@ Proof.
     rewrite Hsk, Hn, Hn1 in H. rewrite <- Hls in H.
     assert (seg <> []) as Hsne by (intros ->; simpl in Hzs; unfold zlen in Hzs; simpl in Hzs; slia).
     assert (Mid s1 pre seg rest1) as HM by (split; [exact HA1|split; [congruence|exact Hsne]]).
-    assert (length rest1 + 1 <= F)%nat as HF1.
+    assert (length rest1 + KF <= F)%nat as HF1.
     { rewrite Hr, app_length in Hn. destruct seg; [congruence|simpl in Hn; slia]. }
     assert ((pre ++ seg) ++ rest1 = pre ++ rest) as Heq0 by (rewrite Hr, <- app_assoc; reflexivity).
     assert ((pre ++ seg) ++ rest1 <> []) as Hne1 by (rewrite Heq0; exact Hne).
@@ -1211,7 +1200,7 @@ Proof.
     destruct (byte_before_seg seg rest1 Hsne) as (x & p & Hsegx & Hbb). rewrite Hbb in H.
     assert (PV false (Some p) (pre ++ seg)) as HP1.
     { right. split; [reflexivity|]. exists (pre ++ x), p. split; [rewrite Hsegx, app_assoc; reflexivity|reflexivity]. }
-    pattern (pre ++ rest ++ d). apply (conclude_eq _ (pre ++ seg) rest1 d pre rest Heq0). cbv beta.
+    pattern (pre ++ rest ++ fd). apply (conclude_eq _ (pre ++ seg) rest1 fd pre rest Heq0). cbv beta.
     rewrite stmt_iter_eq, Hnx. cbn [bind]. unfold iter_some.
     destruct (N.eqb r 40) eqn:E40.
     { (* ( *)
@@ -1238,8 +1227,8 @@ Proof.
       destruct (skipQuote_sim r Eq _ _ _ _ _ Eql rest1 pre s1 F eq_refl eq_refl HA1 ltac:(slia))
         as (segq & segq' & rest2 & s2 & Hr2 & Hsq & Hn2 & Hl2 & Hrun & HA2).
       rewrite Hrun. cbn [bind]. subst n2 l2.
-      pattern ((pre ++ [r]) ++ rest1 ++ d).
-      apply (conclude_eq _ ((pre ++ [r]) ++ segq) rest2 d (pre ++ [r]) rest1); [rewrite Hr2, <- app_assoc; reflexivity|].
+      pattern ((pre ++ [r]) ++ rest1 ++ fd).
+      apply (conclude_eq _ ((pre ++ [r]) ++ segq) rest2 fd (pre ++ [r]) rest1); [rewrite Hr2, <- app_assoc; reflexivity|].
       cbv beta.
       destruct (IH _ _ _ _ _ H rest2 ((pre ++ [r]) ++ segq) s2 opos F eq_refl eq_refl HA2)
         as (s3 & HA3 & Hrun3).
@@ -1266,8 +1255,8 @@ Proof.
       destruct (skipDollarQuote_sim f m n2 l2 rest1 pre s1 F Erd Elm Edl2 HA1 ltac:(slia))
         as (segq & segq' & rest2 & s2 & Hr2 & Hsq & Hn2 & Hl2 & Hrun & HA2).
       rewrite Hrun. cbn [bind]. subst n2 l2.
-      pattern ((pre ++ [36%N]) ++ rest1 ++ d).
-      apply (conclude_eq _ (pre ++ segq) rest2 d (pre ++ [36%N]) rest1);
+      pattern ((pre ++ [36%N]) ++ rest1 ++ fd).
+      apply (conclude_eq _ (pre ++ segq) rest2 fd (pre ++ [36%N]) rest1);
         [rewrite <- !app_assoc; f_equal; symmetry; exact Hr2|].
       cbv beta.
       destruct (IH _ _ _ _ _ H rest2 (pre ++ segq) s2 opos F eq_refl eq_refl HA2)
@@ -1289,8 +1278,8 @@ Proof.
         rewrite Hpre, !zlen_app. pose proof (zlen_nonneg pre'). pose proof (zlen_nonneg seg).
         change (zlen [p']) with 1. change (zlen [35%N]) with 1. slia. }
       rewrite Hrun. cbn [bind]. subst n2 l2.
-      pattern ((pre ++ seg) ++ rest1 ++ d).
-      apply (conclude_eq _ ((pre ++ seg) ++ segq) rest2 d (pre ++ seg) rest1); [rewrite Hr2, <- app_assoc; reflexivity|].
+      pattern ((pre ++ seg) ++ rest1 ++ fd).
+      apply (conclude_eq _ ((pre ++ seg) ++ segq) rest2 fd (pre ++ seg) rest1); [rewrite Hr2, <- app_assoc; reflexivity|].
       cbv beta.
       destruct (IH _ _ _ _ _ H rest2 ((pre ++ seg) ++ segq) s2 opos F eq_refl eq_refl HA2)
         as (s3 & HA3 & Hrun3).
@@ -1309,7 +1298,7 @@ Proof.
       destruct (decode_rune (rest1 ++ fol)) as [r2 wz2] eqn:D2. cbn [fst rune_is] in Eda2.
       apply N.eqb_eq in Eda2. subst r2.
       assert (wz2 = 1) as ->.
-      { assert (rest1 ++ fol <> []) as Hnn by (destruct rest1; discriminate).
+      { pose proof (fol_app_ne rest1) as Hnn.
         destruct (decode_rune_spec _ _ _ D2 Hnn) as (_ & Ha & _). destruct (Ha ltac:(slia)) as [-> _]. reflexivity. }
       destruct (step_at s1 (pre ++ seg) rest1 45%N 1 HA1 D2 ltac:(rewrite Eln1; reflexivity))
         as (seg2 & rest1' & s1' & Hr' & Hls' & Hzs' & _ & Hsk' & Hn1' & Hnx' & _ & HA1' & Hasc').
@@ -1320,8 +1309,8 @@ Proof.
       { destruct HP as [(Hf & _)|(_ & pre' & p' & Hpre & _)]; [discriminate|].
         rewrite Hpre, !zlen_app. pose proof (zlen_nonneg pre'). unfold zlen in *. simpl. slia. }
       rewrite Hrun. cbn [bind]. subst n2 l2.
-      pattern ((pre ++ seg) ++ rest1 ++ d).
-      apply (conclude_eq _ (((pre ++ seg) ++ seg2) ++ segq) rest2 d (pre ++ seg) rest1);
+      pattern ((pre ++ seg) ++ rest1 ++ fd).
+      apply (conclude_eq _ (((pre ++ seg) ++ seg2) ++ segq) rest2 fd (pre ++ seg) rest1);
         [rewrite Hr', Hr2, <- !app_assoc; reflexivity|].
       cbv beta.
       destruct (IH _ _ _ _ _ H rest2 (((pre ++ seg) ++ seg2) ++ segq) s2 opos F eq_refl eq_refl HA2)
@@ -1342,7 +1331,7 @@ Proof.
       destruct (decode_rune (rest1 ++ fol)) as [r2 wz2] eqn:D2. cbn [fst rune_is] in Esl2.
       apply N.eqb_eq in Esl2. subst r2.
       assert (wz2 = 1) as ->.
-      { assert (rest1 ++ fol <> []) as Hnn by (destruct rest1; discriminate).
+      { pose proof (fol_app_ne rest1) as Hnn.
         destruct (decode_rune_spec _ _ _ D2 Hnn) as (_ & Ha & _). destruct (Ha ltac:(slia)) as [-> _]. reflexivity. }
       destruct (step_at s1 (pre ++ seg) rest1 42%N 1 HA1 D2 ltac:(rewrite Eln1; reflexivity))
         as (seg2 & rest1' & s1' & Hr' & Hls' & Hzs' & _ & Hsk' & Hn1' & Hnx' & _ & HA1' & Hasc').
@@ -1353,8 +1342,8 @@ Proof.
       { destruct HP as [(Hf & _)|(_ & pre' & p' & Hpre & _)]; [discriminate|].
         rewrite Hpre, !zlen_app. pose proof (zlen_nonneg pre'). unfold zlen in *. simpl. slia. }
       rewrite Hrun. cbn [bind]. subst n2 l2.
-      pattern ((pre ++ seg) ++ rest1 ++ d).
-      apply (conclude_eq _ (((pre ++ seg) ++ seg2) ++ segq) rest2 d (pre ++ seg) rest1);
+      pattern ((pre ++ seg) ++ rest1 ++ fd).
+      apply (conclude_eq _ (((pre ++ seg) ++ seg2) ++ segq) rest2 fd (pre ++ seg) rest1);
         [rewrite Hr', Hr2, <- !app_assoc; reflexivity|].
       cbv beta.
       destruct (IH _ _ _ _ _ H rest2 (((pre ++ seg) ++ seg2) ++ segq) s2 opos F eq_refl eq_refl HA2)
@@ -1578,6 +1567,73 @@ Proof.
     rewrite !app_length. cbn [length]. lia.
 Qed.
 
+(** * The look-ahead of this file: the delimiter and a newline *)
+Section Plain.
+Variable o : opts.
+Variable d : bytes.
+Variable tail : bytes.
+Variable T : Z.
+Variable SRC : bytes.
+Variable nested : scanner -> res (scanner * option Stmt).
+Hypothesis Hgo : GoCommand o = false.
+Hypothesis Hdok : delim_ok d = true.
+
+Lemma follow_props :
+  (exists a x, d ++ [10%N] = a ++ [x; 10%N] /\ (x < 128)%N) /\
+  (length d <= length (d ++ [10%N]))%nat /\ (d = [59%N] -> In 59%N (d ++ [10%N])).
+Proof.
+  split; [apply follow_split; exact Hdok|]. split; [rewrite app_length; lia|].
+  intros ->. left. reflexivity.
+Qed.
+
+(** the delimiter after the command: [break Scan] *)
+Lemma final_step F s pre opos : At d tail T SRC s pre (d ++ [10%N]) -> pre <> [] ->
+  exists s1, At d tail T SRC s1 (pre ++ d) [10%N] /\
+    stmt_iter o nested F s 0 opos = Ok (Break s1 (pre ++ d)).
+Proof.
+  intros HA Hne.
+  destruct (delim_ok_inv d Hdok) as [Hasc (d0 & d' & Hd & H40 & H41 & Hq)].
+  assert (d0 < 128)%N as Hd0 by (apply Hasc; rewrite Hd; left; reflexivity).
+  destruct HA as (I & P & Tt & Dl & Et & Sr).
+  assert (input s = pre ++ d0 :: (d' ++ [10%N]) ++ tail) as I0 by (rewrite I, Hd; reflexivity).
+  rewrite stmt_iter_eq, (next_ascii_at s pre d0 _ I0 P Hd0). cbn [bind].
+  set (s1 := addPos (set_width s 1) 1).
+  assert (pos s1 = zlen pre + 1) as P1 by (unfold s1; simpl; lia).
+  assert (1 <= zlen pre) as Hp1 by (destruct pre; [congruence|rewrite zlen_cons; pose proof (zlen_nonneg pre); lia]).
+  unfold iter_some.
+  replace (N.eqb d0 40) with false by lia. replace (N.eqb d0 41) with false by lia.
+  change (N.eqb d0 39 || N.eqb d0 34 || N.eqb d0 96) with (is_quote d0). rewrite Hq.
+  unfold iter_rest.
+  rewrite ck_delimcmd_skip by lia.
+  rewrite ck_go_skip by exact Hgo.
+  rewrite (ck_delim_hit s1 _ ((d ++ [10%N]) ++ tail)).
+  - set (s2 := addPos s1 (zlen (delim s1) - width s1)).
+    assert (input s2 = (pre ++ d) ++ [10%N] ++ tail) as I2.
+    { unfold s2, s1. simpl. rewrite I. rewrite <- !app_assoc. reflexivity. }
+    assert (pos s2 = zlen (pre ++ d)) as P2.
+    { unfold s2, s1. simpl. rewrite P, Dl, zlen_app. lia. }
+    rewrite I2, (slice_to_app _ _ _ P2). cbn [bind]. exists s2. split; [|reflexivity].
+    unfold At. splits; auto.
+    unfold s2, s1. simpl. rewrite Tt, Dl, zlen_app. lia.
+  - unfold s1. simpl. rewrite I. apply slice_from_app. lia.
+  - unfold s1. simpl. rewrite Dl. apply has_prefix_app. exists ([10%N] ++ tail). rewrite <- !app_assoc. reflexivity.
+Qed.
+
+Lemma final_plain F s pre opos : At d tail T SRC s pre (d ++ [10%N]) -> pre <> [] -> (1 <= F)%nat ->
+  exists s1, At d tail T SRC s1 (pre ++ d) [10%N] /\
+    stmt_loop o nested F s 0 opos = (do es <- emit o s1 (pre ++ d); Ok (snd es, Some (fst es))).
+Proof.
+  intros HA Hne HF. destruct F as [|F]; [lia|].
+  destruct (final_step F s pre opos HA Hne) as (s1 & HA1 & Hit).
+  rewrite stmt_loop_S, Hit. cbn [bind]. exists s1. split; [exact HA1|reflexivity].
+Qed.
+
+Definition cw_sim_plain :=
+  cw_sim o d (d ++ [10%N]) tail T SRC nested Hgo
+         (proj1 follow_props) (proj1 (proj2 follow_props)) (proj2 (proj2 follow_props))
+         d 1%nat final_plain.
+End Plain.
+
 (** * Main theorems *)
 
 (** A closed command, after a gap, is read back as exactly one statement — whatever follows its
@@ -1617,7 +1673,7 @@ Proof.
     - rewrite zlen_nil. slia.
     - rewrite E0. exact Et. }
   unfold follow in Hcw.
-  destruct (cw_sim o d tail (total s0) (src s) (stmt o f') Hgo Hdok _ _ _ _ _ _ Hcw
+  destruct (cw_sim_plain o d tail (total s0) (src s) (stmt o f') Hgo Hdok _ _ _ _ _ _ Hcw
               cmd [] s0 0 F0 eq_refl eq_refl HA0) as (s1 & HA1 & Hrun).
   { left. auto. }
   { exact Hne. }
